@@ -17,6 +17,7 @@ func init() {
 func runC16(c *Ctx) {
 	L := c.L
 	c.checkOrfNormalisation("orf-normalisation")
+	c.checkBestLengthComparison("best-length-comparison")
 	ph := c.fn("align", "*phaser", "Phase")
 	sc := c.fn("align", "*seqbag", "SequencesChan")
 	c.checkJoinProtocol(ph, "")
